@@ -68,6 +68,20 @@ type LemmaUse struct {
 	Src  string
 }
 
+// Fold: a spec-level fold over an index range, e.g. the product of the E values of a list of events.
+//
+//	fold name(params..., i) := <element expression in i> op mul|add
+//
+// name(args..., lo, hi) denotes op over i in [lo, hi) of the element expression evaluated in the current state.
+type Fold struct {
+	Pkg    string
+	Name   string
+	Params []string // last one is the index variable
+	Elem   Expr
+	Op     string
+	Src    string
+}
+
 type Pred struct {
 	Pkg    string
 	Name   string
@@ -91,6 +105,7 @@ type ContractSet struct {
 	Axioms   []*Axiom
 	Uninterp map[string]int      // declared spec functions: name -> arity (Int...->Int); "name?" -> Bool
 	Globals  map[string][]Clause // package path -> global invariants assumed at function entry
+	Folds    map[string]*Fold
 }
 
 var reClauseHead = regexp.MustCompile(`^(requires|ensures|mustfail|assume|premise)(\[[A-Z0-9, ]+\])?\s+(?:([A-Za-z0-9_\-]+):\s+)?(.*)$`)
@@ -152,7 +167,7 @@ func LoadContracts(cs *ContractSet, pkgPath, file string) error {
 		line int
 	}
 	var logical []ll
-	kw := regexp.MustCompile(`^(func|property|safety|requires|ensures|mustfail|assume|modifies|loop|trusted|assert|pred|implementers|axiom|lemma|fresh|pure|declare|inline|nopanic|uses|global|assumeframe|nonlinear|premise)\b`)
+	kw := regexp.MustCompile(`^(func|property|safety|requires|ensures|mustfail|assume|modifies|loop|trusted|assert|pred|implementers|axiom|lemma|fresh|pure|declare|inline|nopanic|uses|global|assumeframe|nonlinear|premise|fold)\b`)
 	for i, l := range lines {
 		t := strings.TrimSpace(l)
 		if !strings.HasPrefix(t, "//@") {
@@ -239,6 +254,20 @@ func LoadContracts(cs *ContractSet, pkgPath, file string) error {
 				}
 			}
 			cs.Axioms = append(cs.Axioms, &Axiom{Pkg: pkgPath, Name: m[1], Src: m[3], E: e, Vars: vs})
+		case "fold":
+			m := regexp.MustCompile(`^([A-Za-z0-9_]+)\(([^)]*)\)\s*:=\s*(.*?)\s+op\s+(mul|add)$`).FindStringSubmatch(rest)
+			if m == nil {
+				return fail(fmt.Errorf("bad fold"))
+			}
+			e, err := ParseSpec(m[3])
+			if err != nil {
+				return fail(err)
+			}
+			var ps []string
+			for _, p := range strings.Split(m[2], ",") {
+				ps = append(ps, strings.TrimSpace(p))
+			}
+			cs.Folds[m[1]] = &Fold{Pkg: pkgPath, Name: m[1], Params: ps, Elem: e, Op: m[4], Src: rest}
 		case "global":
 			e, err := ParseSpec(rest)
 			if err != nil {
@@ -402,5 +431,5 @@ func LoadContracts(cs *ContractSet, pkgPath, file string) error {
 }
 
 func NewContractSet() *ContractSet {
-	return &ContractSet{Funcs: map[string]*Contract{}, Preds: map[string]*Pred{}, Impl: map[string][]string{}, Uninterp: map[string]int{}, Globals: map[string][]Clause{}}
+	return &ContractSet{Funcs: map[string]*Contract{}, Preds: map[string]*Pred{}, Impl: map[string][]string{}, Uninterp: map[string]int{}, Globals: map[string][]Clause{}, Folds: map[string]*Fold{}}
 }
